@@ -170,7 +170,9 @@ class _RunnerIterator(iter_utils.MultiplexIterator[_ValueT]):
         ignore_error=self._ignore_error,
         with_result=self._with_result,
         with_agg_state=self._with_agg,
-        state=state.agg_state,
+        # The restored iterator updates its accumulators in place: keep the
+        # captured state intact so that it can be restored from again.
+        state=copy.deepcopy(state.agg_state),
     )
 
   @property
